@@ -42,12 +42,12 @@ def sendPanic1 (k : Kcp) (buffer : Bytes) : Bool :=
 theorem send_eq (k : Kcp) (buffer : Bytes) :
     send k buffer =
       if buffer.length = 0 then ⟨k, -1, false⟩ else
-      if sendPanic1 k buffer then ⟨k, 0, true⟩ else
       let buf := buffer.drop (sendExt k buffer)
+      let count := if buf.length ≤ k.mss.toNat then 1 else (buf.length + k.mss.toNat - 1) / k.mss.toNat
+      if count > 255 then ⟨k, -2, false⟩ else
+      if sendPanic1 k buffer then ⟨k, 0, true⟩ else
       let k1 := { k with snd_queue := sendQ1 k buffer }
       if k.stream ≠ 0 ∧ buf.length = 0 then ⟨k1, 0, false⟩ else
-      let count := if buf.length ≤ k.mss.toNat then 1 else (buf.length + k.mss.toNat - 1) / k.mss.toNat
-      if count > 255 then ⟨k1, -2, false⟩ else
       let count := if count = 0 then 1 else count
       if min buf.length k.mss.toNat > mtuLimit then ⟨k1, 0, true⟩ else
       ⟨{ k1 with snd_queue := sendQ1 k buffer ++ mkSegs k.mss.toNat (k.stream ≠ 0) count buf }, 0, false⟩ := rfl
@@ -104,10 +104,10 @@ theorem send_total {k : Kcp} (h : InvK k) (buffer : Bytes) :
   · exact ⟨rfl, h⟩
   · rw [sendPanic1_false h buffer]
     simp only [Bool.false_eq_true, if_false]
+    generalize (if (List.drop (sendExt k buffer) buffer).length ≤ k.mss.toNat then 1 else _) = count
     split
-    · exact ⟨rfl, hk1⟩
-    · generalize (if (List.drop (sendExt k buffer) buffer).length ≤ k.mss.toNat then 1 else _) = count
-      split
+    · exact ⟨rfl, h⟩
+    · split
       · exact ⟨rfl, hk1⟩
       · have hm := h.mss_le
         rw [if_neg (by omega)]
@@ -282,12 +282,12 @@ theorem send_acklist (k : Kcp) (b : Bytes) : (send k b).k.acklist = k.acklist :=
   simp only []
   split
   · rfl
-  · split
+  · generalize (if (List.drop (sendExt k b) b).length ≤ k.mss.toNat then 1 else _) = count
+    split
     · rfl
     · split
       · rfl
-      · generalize (if (List.drop (sendExt k b) b).length ≤ k.mss.toNat then 1 else _) = count
-        split
+      · split
         · rfl
         · split <;> rfl
 
